@@ -15,6 +15,13 @@
                container}: returns None or an ndarray, never raises.  Every batch runs in a forked
                child so that a native crash (or a hang) is recorded as a violation of that input
                instead of killing the check.
+  rewrite      one path rewritten between reads (other values / other dtype, shape, sample width, byte order /
+               other entry names; in place, remove + create, os.replace; time stamps put back): every read
+               gives what was written last
+  long_inputs  65535 .. 131073 frames x 1..3 channels (2**20 + 1 x 2 for the audio containers) through every
+               reader and access
+  file_objects every kind of binary file object (mc/refs/sphere.py STREAM_KINDS) for SPHERE, and for the other
+               containers the kinds their own reader accepts
 """
 import hashlib
 import io
@@ -46,6 +53,10 @@ ASSUMPTIONS = [
     "raw binary has no dtype of its own: `dtype` there is the interpretation (float64 by default), "
     "so only (stored float64, dtype None) and (stored T, dtype T) are in the property's domain",
     "garbage for wds_read_signal is the stated finite family, not all byte strings",
+    "rewrite: time stamps are put back with os.utime (a cache keyed by name and modification time is as wrong "
+    "as one keyed by name); long_inputs: lengths around 2**16, 2**17 + 1 and 2**20 + 1 frames stand for 'long'; "
+    "file_objects: for containers read by a third-party reader a kind of file object is in the property's "
+    "domain iff that reader itself returns the stored array from such an object",
     "sph_reads: only 16-bit PCM SPHERE is in C11 (mu-law/A-law files come back expanded, i.e. not "
     "bit-identical to what is stored; they are C12's); file lengths are the stated alphabet around "
     "the reader's 16384-byte read size, header sizes 1024/1025/1500/2048/4000",
@@ -1157,6 +1168,349 @@ def _replay_history(case, seed):
             case, lambda c: _hist_seqs(c["alphabet"], c["depth"], c["first"]), _hist_setup(seed, tmp)))
 
 
+# ------------------------------------------------------------------ a file REWRITTEN between reads
+#
+# "an array written ... is read back": what a name holds NOW.  One path per history; a version of its
+# contents is written with the container's own writer, read through every access that goes through the file
+# NAME (and an open file), then the same path is rewritten with ANOTHER version - other values; other dtype /
+# shape / channel count / sample width / byte order; (npz, hdf5) other entry names - and read again, all in one
+# interpreter.  Every read must give what was written LAST.
+
+RW_WAYS = ("in_place", "in_place_mtime_kept", "remove_create", "replace_mtime_kept")
+RW_DTYPES = (None, "float64")
+
+
+def _rw_versions(container):
+    return (0, 1, 2, 3) if container in ("npz", "hdf5") else (0, 1, 2)
+
+
+def _rw_version(container, v, seed):
+    """-> (container whose writer is used, layout, sig, other, other2, {key: expected array | "any"})
+    v0: the base array; v1: same shape and dtype, other values (npz: compressed); v2: another shape and, where
+    the suffix allows it, another stored dtype (wav: the other sample width, sph: the other byte order, mono);
+    v3 (npz, hdf5): entries under other names"""
+    k = list(CONTAINERS).index(container)
+    wc, layout = container, _layouts(container)[0][0]
+    audio = container in ("wav16", "wav32", "flac", "aiff", "sph01", "sph10")
+    dtype = HIST_STORED.get(container, "int16")
+    shape = (6, 2) if audio else (12,)
+    if v == 2:
+        shape = (9,) if audio else (7,) if container == "raw" else (4, 3)
+        if not audio and container != "raw":
+            dtype = "float32"
+        wc = {"wav16": "wav32", "wav32": "wav16", "sph01": "sph10", "sph10": "sph01"}.get(container, container)
+        if wc in ("wav16", "wav32"):
+            dtype = {"wav16": "int16", "wav32": "int32"}[wc]
+    off = 200 + 10 * k + 3 * v
+    arr = _values(seed, shape, dtype, offset=off, full_range=(wc == "wav32"))
+    other = _values(seed, (3,), dtype, offset=off + 1)
+    other2 = _values(seed, (2, 2), dtype, offset=off + 2)
+    exp = {None: arr}
+    if container == "npz":
+        layout = {0: "positional", 1: "compressed", 2: "positional", 3: "named"}[v]
+        exp = {"positional": {None: arr, "arr_0": arr, "arr_1": other},
+               "compressed": {None: arr, "arr_0": arr, "b": other},
+               "named": {None: other2, "arr_0": other2, "sig": arr, "a": other}}[layout]
+    elif container == "hdf5":
+        layout = "multi" if v == 3 else "single_nested"
+        exp = {None: arr, "a/b/d/f": arr} if v != 3 else {"a/b/d/f": arr, "g": other, "a/x": other2}
+    return wc, layout, arr, other, other2, exp
+
+
+def _rw_write(container, v, seed, path, way, first):
+    wc, layout, arr, other, other2, exp = _rw_version(container, v, seed)
+    st = None if first else os.stat(path)
+    if first or way.startswith("in_place"):
+        _write(wc, layout, arr, other, other2, path)
+    elif way == "remove_create":
+        os.remove(path)
+        _write(wc, layout, arr, other, other2, path)
+    else:
+        stage = os.path.join(os.path.dirname(path), "staging")
+        os.makedirs(stage, exist_ok=True)
+        tmp = os.path.join(stage, os.path.basename(path))
+        _write(wc, layout, arr, other, other2, tmp)
+        os.replace(tmp, path)
+    if st is not None and way.endswith("mtime_kept"):
+        os.utime(path, ns=(st.st_atime_ns, st.st_mtime_ns))
+    return exp
+
+
+def _rw_accesses(container):
+    suffix, forces = CONTAINERS[container][0], CONTAINERS[container][1]
+    acc = [("path", None)] if suffix is not None else []
+    return acc + [("path", forces[0]), ("file", forces[0])]
+
+
+def _rw_compare(got, want):
+    if not isinstance(got, np.ndarray):
+        return "type", "returned %s" % type(got).__name__
+    if got.shape != want.shape:
+        return "shape", "shape %r, the file holds %r" % (got.shape, want.shape)
+    if got.dtype != want.dtype:
+        return "dtype", "dtype %s, expected %s" % (got.dtype, want.dtype)
+    if not np.array_equal(got, want):
+        bad = np.argwhere(got != want)
+        return "values", "%d of %d values differ, first at %r: got %r, the file holds %r" % (
+            len(bad), want.size, bad[0].tolist(), got[tuple(bad[0])].item(), want[tuple(bad[0])].item())
+    return None
+
+
+def _rw_history(container, way, versions, seed, tmp):
+    """-> (violations, evaluations, observations)"""
+    suffix = CONTAINERS[container][0]
+    path = os.path.join(tmp, "utt" + (suffix or ".f64"))
+    viol, evals, obs = [], 0, set()
+    prev = None
+    for n, v in enumerate(versions):
+        exp = _rw_write(container, v, seed, path, way, n == 0)
+        for key in sorted(exp, key=str):
+            for access, force in _rw_accesses(container):
+                for req in (RW_DTYPES if container != "raw" else (None,)):
+                    want = exp[key] if req is None else exp[key].astype(req)
+                    r = _read(path, path, access, force, req, key)
+                    evals += 1
+                    case = dict(kind="rewrite", container=container, way=way, versions=list(versions),
+                                upto=n, key=key, access=access, force_as=force, dtype=req)
+                    tags = dict(what="rewrite", container=container, rewritten=(n > 0),
+                                way=way.replace("_mtime_kept", ""), mtime_kept=way.endswith("mtime_kept"),
+                                via=("inferred" if force is None else force), stream=(access == "file"),
+                                keyed=(key is not None), cast=(req is not None))
+                    desc = "%s: versions %r written to one path (%s), after writing version %d: " \
+                           "read_signal(%s%s%s%s)" % (
+                               container, list(versions[:n + 1]), way, v, "<open file>" if access == "file" else "path",
+                               ", force_as=%r" % force if force else "", ", key=%r" % key if key is not None else "",
+                               ", dtype=%r" % req if req else "")
+                    if r[0] == "exc":
+                        viol.append(core.violation(dict(tags, aspect="exception", exc=type(r[1]).__name__),
+                                                   "%s raised %s: %s" % (desc, type(r[1]).__name__, _clean(r[1])),
+                                                   case))
+                        obs.add("exc")
+                        continue
+                    c = _rw_compare(r[1], want)
+                    if c is not None:
+                        stale = False
+                        if prev is not None and key in prev and isinstance(r[1], np.ndarray):
+                            old = prev[key] if req is None else prev[key].astype(req)
+                            stale = _rw_compare(r[1], old) is None
+                        viol.append(core.violation(dict(tags, aspect=c[0], stale=stale),
+                                                   "%s: %s%s" % (desc, c[1], " (it is what the path held BEFORE it "
+                                                                             "was rewritten)" if stale else ""), case))
+                    obs.add(("ok" if c is None else c[0]) + (":rewritten" if n else ":first") +
+                            (":keyed" if key is not None else ""))
+        prev = exp
+    return viol, evals, obs
+
+
+def _rw_sequences(container):
+    vs = _rw_versions(container)
+    pairs = [(a, b) for a in vs for b in vs if a != b]
+    return pairs + [(a, b, a) for a, b in pairs]
+
+
+def _rewrite(pt, seed):
+    container, way = pt
+    viol, evals, nontriv, obs = [], 0, 0, set()
+    with _Tmp() as tmp:
+        for i, versions in enumerate(_rw_sequences(container)):
+            sub = os.path.join(tmp, "h%d" % i)           # one name per history
+            os.makedirs(sub)
+            v, e, o = _rw_history(container, way, versions, seed, sub)
+            viol += v
+            evals += e
+            nontriv += e
+            obs |= o
+            if len(viol) >= 60:
+                break
+    return core.result(viol, evals=evals, nontrivial_count=nontriv, obs=sorted(obs),
+                       sample=dict(container=container, way=way, sequences=[list(x) for x in _rw_sequences(container)][:4],
+                                   accesses=[list(map(str, a)) for a in _rw_accesses(container)]))
+
+
+def _replay_rewrite(case, seed):
+    with _Tmp() as tmp:
+        v, _, _ = _rw_history(case["container"], case["way"], tuple(case["versions"]), seed, tmp)
+    want = {k: case[k] for k in ("upto", "key", "access", "force_as", "dtype")}
+    return core.result([x for x in v if all(x["case"].get(k) == want[k] for k in want)])
+
+
+# ------------------------------------------------------------------ long inputs through every reader
+
+LONG_FRAMES = (65535, 65536, 65537, 131073)
+LONG_CHANNELS = (1, 2, 3)
+LONG_EXTRA = [(c, 1048577, 2) for c in ("wav16", "wav32", "flac", "aiff")]     # 2**20 + 1 frames
+LONG_DTYPES = (None, "float32")
+
+
+def _long_file(container, frames, ch, seed, tmp):
+    suffix = CONTAINERS[container][0]
+    shape = (frames,) if ch == 1 else (frames, ch)
+    dtype = HIST_STORED.get(container, "int16")
+    arr = _values(seed, shape, dtype, full_range=(container == "wav32"))
+    other = _values(seed, (3,), dtype, offset=1)
+    path = os.path.join(tmp, "long" + (suffix or ".f64"))
+    if container in ("sph01", "sph10"):
+        be = container == "sph10"
+        with open(path, "wb") as f:           # (the reference encoder packs value by value: too slow here)
+            f.write(sph.header_variant("h1024", "pcm" + container[3:], ch, frames))
+            f.write(arr.astype(">i2" if be else "<i2").tobytes("C"))
+    else:
+        _write(container, _layouts(container)[0][0], arr, other, other, path)
+    return path, arr
+
+
+def _long_check(case, path, arr):
+    container, access, force, req = (case[k] for k in ("container", "access", "force_as", "dtype"))
+    if container == "raw" and req is not None:
+        return None, "skipped"
+    r = _read(path, path, access, force, req, None)
+    tags = dict(what="long_input", container=container,
+                via=("wds" if access == "wds" else "inferred" if force is None else force),
+                stream=(access in ("file", "bytesio", "wds")), multichannel=(arr.ndim == 2),
+                more_than_65536_frames=(arr.shape[0] > 65536))
+    desc = "%s %r stored %s access=%s force_as=%r dtype=%r" % (container, arr.shape, arr.dtype, access, force, req)
+    if r[0] == "exc":
+        return core.violation(dict(tags, aspect="exception", exc=type(r[1]).__name__),
+                              "%s: raised %s: %s" % (desc, type(r[1]).__name__, _clean(r[1])), case), "exc"
+    want = arr if req is None else arr.astype(req)
+    got = r[1]
+    c = _rw_compare(got, want)
+    if c is None:
+        return None, "ok"
+    extra = {}
+    if c[0] == "values":
+        first = int(np.flatnonzero(got.reshape(-1) != want.reshape(-1))[0])
+        extra = dict(first_bad_flat_index_ge_65536=(first >= 65536))
+        c = (c[0], c[1] + " (flat index %d)" % first)
+    return core.violation(dict(tags, aspect=c[0], **extra), "%s: %s" % (desc, c[1]), case), c[0]
+
+
+def _long(pt, seed):
+    container, frames, ch = pt
+    viol, obs, evals, skipped = [], set(), 0, 0
+    with _Tmp() as tmp:
+        path, arr = _long_file(container, frames, ch, seed, tmp)
+        for access, force in _rt_accesses(container):
+            if access == "path_dotted":
+                continue
+            for req in (LONG_DTYPES if access != "wds" else (None,)):
+                case = dict(kind="long_input", container=container, frames=frames, channels=ch, access=access,
+                            force_as=force, dtype=req)
+                v, o = _long_check(case, path, arr)
+                if o == "skipped":
+                    skipped += 1
+                    continue
+                evals += 1
+                obs.add((o, req))
+                if v is not None:
+                    viol.append(v)
+    return core.result(viol, evals=evals, nontrivial_count=evals, skipped=skipped, obs=sorted(map(str, obs)),
+                       sample=dict(container=container, frames=frames, channels=ch,
+                                   accesses=[list(map(str, a)) for a in _rt_accesses(container)]))
+
+
+def _replay_long(case, seed):
+    with _Tmp() as tmp:
+        path, arr = _long_file(case["container"], case["frames"], case["channels"], seed, tmp)
+        v, _ = _long_check(case, path, arr)
+    return core.result([v] if v is not None else [])
+
+
+# ------------------------------------------------------------------ every kind of binary file object
+
+
+def _fo_own_reader(container, force, f):
+    """the container's OWN reader on the file object -> array (raises when it cannot read such an object)"""
+    if container in ("wav16", "wav32") and force == "wav":
+        w = wave.open(f)
+        try:
+            a = np.frombuffer(w.readframes(w.getnframes()), dtype="<i%d" % w.getsampwidth())
+            return a.reshape(-1, w.getnchannels()) if w.getnchannels() > 1 else a
+        finally:
+            w.close()
+    if container in ("wav16", "wav32", "flac", "aiff"):
+        import soundfile as sf
+
+        with sf.SoundFile(f) as g:
+            return g.read(dtype="int32" if container == "wav32" else "int16")
+    if container == "npy":
+        return np.load(f)
+    if container == "npz":
+        return np.load(f)["arr_0"]
+    if container == "pt":
+        import torch
+
+        return torch.load(f, map_location="cpu").numpy()
+    if container == "hdf5":
+        import h5py
+
+        with h5py.File(f, "r") as g:
+            return np.array(g["a/b/d/f"])
+    if container == "raw":
+        return np.fromfile(f)
+    raise core.HarnessError(container)
+
+
+def _fo_case(case, seed, tmp):
+    from pydrobert.speech import util
+
+    container, kind, force, req, shape = (case[k] for k in ("container", "stream", "force_as", "dtype", "shape"))
+    layout = _layouts(container)[0][0]
+    sub = os.path.join(tmp, "w")
+    os.makedirs(sub, exist_ok=True)
+    path, _, arrays = _rt_file(container, layout, tuple(shape), HIST_STORED.get(container, "int16"), seed, sub)
+    arr = arrays["sig"]
+    with open(path, "rb") as f:
+        data = f.read()
+    if container not in ("sph01", "sph10"):
+        if kind == "pipe":
+            return None, "skipped"        # not seekable: no third-party reader of these containers takes it
+        # in the property's domain iff the container's own reader reads the stored array from such an object
+        with sph.open_stream(kind, data, tmp) as f:
+            own = _call(lambda: _fo_own_reader(container, force, f))
+        if own[0] != "ok" or _rw_compare(np.asarray(own[1]), arr) is not None:
+            return None, "skipped"
+    with sph.open_stream(kind, data, tmp) as f:
+        nclass = sph.name_class(f)
+        r = _call(lambda: util.read_signal(f, dtype=req, force_as=force))
+    tags = dict(what="file_object", container=container, via=force, name_attr=nclass, pipe=(kind == "pipe"))
+    desc = "%s %r read_signal(<%s>, force_as=%r, dtype=%r)" % (container, arr.shape, kind, force, req)
+    if r[0] == "exc":
+        return core.violation(dict(tags, aspect="exception", exc=type(r[1]).__name__),
+                              "%s raised %s: %s" % (desc, type(r[1]).__name__, _clean(r[1])), case), "exc"
+    c = _rw_compare(r[1], arr if req is None else arr.astype(req))
+    if c is not None:
+        return core.violation(dict(tags, aspect=c[0]), "%s: %s" % (desc, c[1]), case), c[0]
+    return None, "ok"
+
+
+def _fo(pt, seed):
+    container, kind = pt
+    viol, obs, evals, skipped = [], set(), 0, 0
+    with _Tmp() as tmp:
+        for shape in ([[7], [5, 3]] if container != "raw" else [[7]]):
+            for force in CONTAINERS[container][1]:
+                for req in ((None, "float64") if container != "raw" else (None,)):
+                    case = dict(kind="file_object", container=container, stream=kind, force_as=force, dtype=req,
+                                shape=shape)
+                    v, o = _fo_case(case, seed, tmp)
+                    if o == "skipped":
+                        skipped += 1
+                        continue
+                    evals += 1
+                    obs.add((o, req))
+                    if v is not None:
+                        viol.append(v)
+    return core.result(viol, evals=evals, nontrivial_count=evals, skipped=skipped, obs=sorted(map(str, obs)),
+                       sample=dict(container=container, file_object=kind))
+
+
+def _replay_fo(case, seed):
+    with _Tmp() as tmp:
+        v, _ = _fo_case(case, seed, tmp)
+    return core.result([v] if v is not None else [])
+
+
 # ------------------------------------------------------------------ registration
 
 
@@ -1170,6 +1524,12 @@ def _replay(case, seed):
         return _replay_wds(case, seed)
     if k in ("history", "history_run"):
         return _replay_history(case, seed)
+    if k == "rewrite":
+        return _replay_rewrite(case, seed)
+    if k == "long_input":
+        return _replay_long(case, seed)
+    if k == "file_object":
+        return _replay_fo(case, seed)
     return _replay_error(case, seed)
 
 
@@ -1263,4 +1623,44 @@ def subchecks(tier, seed):
                       substitutions=("8 single-bit flips, b^0xFF, b^0x55, b^0xAA" if tier == "thorough"
                                      else "b^0xFF, b^0x80, b^0x01")),
             replay=lambda case: _replay(case, seed), chunk=1, kind="fault_enumeration"),
+        core.SubCheck(
+            "rewrite", [(c, w) for c in CONTAINERS for w in RW_WAYS], lambda p: _rewrite(p, seed),
+            "a file REWRITTEN between reads, in one interpreter: per point (container, way of rewriting in "
+            "{truncate and write in place, the same with the old time stamps put back, remove and create, "
+            "os.replace from a staging directory with the old time stamps put back}) every history v_a v_b and "
+            "v_a v_b v_a over the versions {0: base array, 1: same shape and dtype, other values (npz: compressed), "
+            "2: another shape and - where the suffix allows - stored dtype (wav: the other sample width, sph: the "
+            "other byte order, mono instead of 2 channels), 3 (npz, hdf5): entries under other names} written "
+            "to ONE path with the container's own writer; after every write every entry (key None and every name "
+            "the file holds) is read through {suffix-inferred path, path + force_as, open file + force_as} x dtype "
+            "{None, float64} and must be what was written LAST (shape, dtype, values); a wrong result that equals "
+            "what the path held before is tagged stale; every evaluation is non-trivial",
+            axes=dict(container=list(CONTAINERS), way=list(RW_WAYS), versions="0..2 (npz, hdf5: 0..3)",
+                      histories="every (a, b) and (a, b, a), a != b", dtype=list(RW_DTYPES)),
+            replay=lambda case: _replay(case, seed), chunk=1, kind="histories"),
+        core.SubCheck(
+            "long_inputs", [(c, n, ch) for c in CONTAINERS for n in LONG_FRAMES for ch in LONG_CHANNELS
+                            if ch == 1 or c != "raw"] + LONG_EXTRA,     # raw binary stores rank 1 only
+            lambda p: _long(p, seed),
+            "long inputs through every reader: per point (container, frames in %r, channels in %r; and 2**20 + 1 "
+            "frames x 2 channels for wav16 / wav32 / flac / aiff) the array (frames,) / (frames, channels) is written "
+            "with the container's own writer (SPHERE: reference header + the samples in the header's byte order) "
+            "and read back through every access of roundtrip (suffix-inferred path, path + force_as, open file + "
+            "force_as, BytesIO + force_as - wav also through force_as='soundfile' -, wds_read_signal) x dtype "
+            "{None, float32}: same shape, dtype and values; every evaluation is non-trivial" % (
+                list(LONG_FRAMES), list(LONG_CHANNELS)),
+            axes=dict(container=list(CONTAINERS), frames=list(LONG_FRAMES), channels=list(LONG_CHANNELS),
+                      extra=[list(x) for x in LONG_EXTRA], dtype=list(LONG_DTYPES)),
+            replay=lambda case: _replay(case, seed), chunk=1),
+        core.SubCheck(
+            "file_objects", [(c, k) for c in CONTAINERS for k in sph.STREAM_KINDS], lambda p: _fo(p, seed),
+            "read_signal(f, force_as=...) through EVERY kind of binary file object of mc/refs/sphere.py "
+            "STREAM_KINDS %r x container x shape {(7,), (5,3)} x every force_as of the container x dtype {None, "
+            "float64}.  In the lattice: SPHERE with every kind (the library's own reader: read(n) is all it may "
+            "need); any other container with the kinds from which the container's OWN reader (wave, soundfile, "
+            "numpy.load, torch.load, h5py, numpy.fromfile) returns the stored array when given such an object "
+            "directly - the others, and a pipe (not seekable), are skipped; same shape, dtype and values as stored.astype(dtype)" % (
+                list(sph.STREAM_KINDS),),
+            axes=dict(container=list(CONTAINERS), file_object=list(sph.STREAM_KINDS), dtype=[None, "float64"]),
+            replay=lambda case: _replay(case, seed)),
     ]
